@@ -295,6 +295,10 @@ class TypeUnion(Type):
         super().__init__()
         self.possible_types = set(possible_types)
 
+    def clone(self):
+        """ Make a new union of the same possible types (the inherited version calls the constructor bare) """
+        return TypeUnion(self.possible_types)
+
 
 class FunctionType(Type):
     name = 'Function'
